@@ -754,9 +754,14 @@ class AssignmentCheck(Check):
                 at = tr.AssignmentTool(full_array, traj, u2, stop=stop, include_outliers=sc["include_outliers"],
                                        cartesian_grid=sc["cartesian_flag"])
                 got = np.asarray(at.get_full_assignments(), dtype=float)
-            n_expected = len(frames) if stop is None else stop
-            if got.shape != (n_expected,):
-                raise Violation("assignment-length", f"{got.shape} assignments for {n_expected} frames")
+            n_expected = len(frames) if stop is None else min(stop, len(frames))
+            if got.ndim != 1:
+                raise Violation("assignment-length", f"assignments have shape {got.shape}")
+            if n_expected == len(frames) and len(got) != len(frames):
+                # every frame of the trajectory was to be analysed
+                raise Violation("assignment-length", f"{len(got)} assignments for {len(frames)} frames")
+            # with an explicit smaller `stop` the statement does not say how long the answer is: judge what is returned
+            n_expected = min(n_expected, len(got))
             # ---- reference model
             outer = t_arr[-1] + (t_arr[-1] - t_arr[-2]) / 2
             judged = excluded = 0
